@@ -54,10 +54,29 @@
 (* A deviation successor exists only where the modelled views of the       *)
 (* encoding and of the reference differ; the real code is accepted on      *)
 (* either successor, anything else it does is a violation.                 *)
+(*                                                                         *)
+(* NON-SCALAR values (family "ns").  A field value may also be nil or a    *)
+(* DOCUMENT: a map or an array (empty, flat, nested) - what a JSON object  *)
+(* / list attribute is.  JSON and msgpack carry documents as they are      *)
+(* (OTLP does not: husky flattens a kvlist into OTHER field names and      *)
+(* turns an array into a JSON string, so an OTLP attribute is no encoding  *)
+(* of such a field - Carries).  A document has no wire type to choose, but *)
+(* the paths differ in WHERE the receiving node keeps a field the sampler  *)
+(* will read (Ingestion / Slot): /1/events decodes the whole body into a   *)
+(* Go map; /1/batch and everything a peer forwards keeps the serialized    *)
+(* event, decodes the destination's sampling key fields while scanning it  *)
+(* and records the key fields it did not find in a negative cache that     *)
+(* Exists / Get / MemoizeFields trust; OTLP keeps the serialized event and *)
+(* memoizes the key fields at decision time.  C09 for them: a consumer     *)
+(* (rule condition, key field, a dotted path below the field when the      *)
+(* rules have CheckNestedFields) sees the field present exactly if the     *)
+(* abstract span has it, and then the same document, on every path and     *)
+(* for every kind of value (SlotSound, EncodingIndependent).  No deviation *)
+(* of the code is known here: the only successor is "agree".               *)
 (***************************************************************************)
 EXTENDS Integers, Sequences, SequencesExt, FiniteSets, TLC, Json
 
-CONSTANTS Families,  \* subset of {"wire", "frac", "mix2", "mix3"}: which vector families Init enumerates
+CONSTANTS Families,  \* subset of {"wire", "frac", "mix2", "mix3", "ns"}: which vector families Init enumerates
           Big,       \* FALSE: quick bound, TRUE: thorough bound
           Faithful   \* TRUE: views as the code is known to compute them (deviation successors)
 
@@ -76,6 +95,25 @@ S(x)   == [k |-> "s",   n |-> 0, s |-> x]
 B(x)   == [k |-> "b",   n |-> IF x THEN 1 ELSE 0, s |-> ""]
 N(t)   == [k |-> "n",   n |-> t, s |-> ""]          \* t in tenths
 NF(t)  == [k |-> "nf",  n |-> t, s |-> ""]          \* rule Values only: the whole number t/10 written as a float literal ("2.0")
+Nil    == [k |-> "nil", n |-> 0, s |-> ""]          \* JSON null / msgpack nil: the field is PRESENT
+C(d)   == [k |-> "c",   n |-> 0, s |-> d]           \* a document (map or array): d names an entry of Docs
+
+(* The documents, as JSON text (the harness writes them down in JSON and,  *)
+(* element by element in this order, in msgpack; inner numbers are small   *)
+(* integers: numeric wire types are the business of the other families).   *)
+Docs == [emap |-> "{}",
+         map  |-> "{\"a\":\"x\",\"b\":1}",
+         nest |-> "{\"a\":{\"b\":\"x\"},\"c\":[1,\"y\"]}",
+         earr |-> "[]",
+         arr  |-> "[\"x\",1]",
+         arrm |-> "[{\"a\":\"x\"},[]]"]
+DocNames == DOMAIN Docs
+DocKind(d) == IF d \in {"emap", "map", "nest"} THEN "map" ELSE "array"
+\* the dotted paths below a field holding document d that the configurations use
+\* and that lead to something (CheckNestedFields: gjson over the span as JSON)
+DocHas(d, p) == \/ d = "map"  /\ p \in {"a", "b"}
+                \/ d = "nest" /\ p \in {"a", "a.b", "c"}
+NonScalar(v) == v.k \in {"c", "nil"}
 
 Integral(t) == t % 10 = 0
 IntVal(t)   == t \div 10
@@ -139,23 +177,54 @@ GoType(base, w) ==
     [] base = "mpEvent" -> (IF w \in MpInt THEN "int64" ELSE IF w \in MpUint THEN "uint64" ELSE "float64")
 Forwarded(g) == g
 
+(* WHERE the receiving node keeps a field the sampler will read.            *)
+(*  "map"      /1/events: the body is decoded into a Go map                 *)
+(*             (requestToEvent, NewPayload(map)): every field is there      *)
+(*  "extract"  /1/batch (JSON is first rewritten as msgpack) and every      *)
+(*             span a peer forwards (re-ingested by the peer's /1/batch):   *)
+(*             UnmarshalMsgpFirstEvent keeps the serialized event, decodes  *)
+(*             and memoizes the destination's sampling key fields (every    *)
+(*             rule-condition field, every FieldList entry) it meets while  *)
+(*             scanning, and puts the key fields it did not meet into       *)
+(*             missingFields                                                *)
+(*  "lazy"     OTLP received directly: serialized event kept, metadata only *)
+(*             (UnmarshalMsgpEventMetadataOnly); the collector's            *)
+(*             MemoizeFields(key fields) before the decision does the same  *)
+(*             scan                                                         *)
+Ingestion(base, fwd) ==
+  IF fwd THEN "extract"
+  ELSE CASE base \in {"jsonEvent", "mpEvent"} -> "map"
+         [] base \in {"jsonBatch", "mpBatch"} -> "extract"
+         [] base = "otlp" -> "lazy"
+(* the state of a sampling key field in the payload when the sampler asks:  *)
+(* "memo" decoded value at hand, "missing" negative cache (never looked for *)
+(* again), "none" simply not in the map.  The value's KIND plays no part:   *)
+(* a nil, a map or an array is met by the scan like a string or a number.   *)
+Slot(ing, v) == IF v.k # "abs" THEN "memo" ELSE IF ing = "map" THEN "none" ELSE "missing"
+Found(slot) == slot = "memo"
+
 ---------------------------------------------------------------------------
 (* Sampler configurations.                                                 *)
-(*   field : [r |-> BOOLEAN (root. prefix), n |-> "f" | "g"]               *)
+(*   field : [r |-> BOOLEAN (root. prefix), n |-> "f" | "g",               *)
+(*            p |-> "" | dotted path below the field ("f.a" is n "f",      *)
+(*            p "a"): only reachable with CheckNestedFields]               *)
 (*   cond  : [fields, op, dt, val, list]                                   *)
-(*   cfg   : [kind |-> "rules" | "dyn", scope, conds, key, utl]            *)
+(*   cfg   : [kind |-> "rules" | "dyn", scope, conds, key, utl,            *)
+(*            nested |-> CheckNestedFields]                                *)
 (* kind "rules": RulesBasedSampler with rule r1 = (conds, Scope scope;     *)
 (*   Drop: true if key = <<>>, else a downstream DynamicSampler over key)  *)
 (*   followed by rule r2 = (no condition, SampleRate 1).                   *)
 (* kind "dyn": DynamicSampler, FieldList key, UseTraceLength utl.          *)
 CmpOps == {"=", "!=", "<", "<=", ">", ">="}
 StrOps == {"starts-with", "contains", "does-not-contain"}
-Fld(n)  == [r |-> FALSE, n |-> n]
-RFld(n) == [r |-> TRUE,  n |-> n]
+Fld(n)  == [r |-> FALSE, n |-> n, p |-> ""]
+RFld(n) == [r |-> TRUE,  n |-> n, p |-> ""]
+NFld(n, p) == [r |-> FALSE, n |-> n, p |-> p]
 NoVal == [k |-> "none", n |-> 0, s |-> ""]
 Cond(fields, op, dt, val, list) == [fields |-> fields, op |-> op, dt |-> dt, val |-> val, list |-> list]
-RulesCfg(scope, conds, key) == [kind |-> "rules", scope |-> scope, conds |-> conds, key |-> key, utl |-> FALSE]
-DynCfg(key, utl) == [kind |-> "dyn", scope |-> "", conds |-> <<>>, key |-> key, utl |-> utl]
+RulesCfg(scope, conds, key) == [kind |-> "rules", scope |-> scope, conds |-> conds, key |-> key, utl |-> FALSE, nested |-> FALSE]
+NestedCfg(scope, conds, key) == [kind |-> "rules", scope |-> scope, conds |-> conds, key |-> key, utl |-> FALSE, nested |-> TRUE]
+DynCfg(key, utl) == [kind |-> "dyn", scope |-> "", conds |-> <<>>, key |-> key, utl |-> utl, nested |-> FALSE]
 
 (* The CONSUMERS of a configuration: every condition and every key field   *)
 (* reads one value per span.  ck is the kind of view it takes of a number; *)
@@ -176,8 +245,9 @@ CondCons(c) ==
   IN [ck |-> kh[1], h |-> kh[2], fields |-> c.fields]
 KeyCons(fld) == IF fld.r THEN [ck |-> "str", h |-> "rootkey", fields |-> <<fld>>]
                 ELSE [ck |-> "key", h |-> "AddAsString", fields |-> <<fld>>]
-Consumers(cfg) == [i \in 1 .. Len(cfg.conds) |-> CondCons(cfg.conds[i])]
-                  \o [i \in 1 .. Len(cfg.key) |-> KeyCons(cfg.key[i])]
+\* nest: may this consumer follow a dotted path into a document (conditions of rules with CheckNestedFields; keys never)
+Consumers(cfg) == [i \in 1 .. Len(cfg.conds) |-> CondCons(cfg.conds[i]) @@ [nest |-> cfg.nested]]
+                  \o [i \in 1 .. Len(cfg.key) |-> KeyCons(cfg.key[i]) @@ [nest |-> FALSE]]
 
 ---------------------------------------------------------------------------
 (* Traces and encodings.                                                   *)
@@ -197,8 +267,11 @@ RefEnc(t) == [perm |-> [i \in 1 .. Len(t.spans) |-> i], se |-> [i \in 1 .. Len(t
 \* the (base, forwarded) combinations and msgpack wire types enumerated per family
 AllPaths == Bases \X BOOLEAN
 WiresFor(base, v, ws) == IF v.k # "n" THEN {NoWire} ELSE {w \in WiresOf(base) \cap ws : Fits(w, v.n)}
+\* can a request of this base carry the span with the same field names and values?  JSON and msgpack carry
+\* everything; an OTLP attribute cannot be nil, a kvlist arrives as OTHER fields (f.a, f.b), an array as a string
+Carries(base, sp) == base # "otlp" \/ (~NonScalar(sp.f) /\ ~NonScalar(sp.g))
 SpanEncsOf(sp, paths, ws) ==
-  UNION {{[base |-> p[1], fwd |-> p[2], wf |-> a, wg |-> b] : a \in WiresFor(p[1], sp.f, ws), b \in WiresFor(p[1], sp.g, ws)} : p \in paths}
+  UNION {{[base |-> p[1], fwd |-> p[2], wf |-> a, wg |-> b] : a \in WiresFor(p[1], sp.f, ws), b \in WiresFor(p[1], sp.g, ws)} : p \in {q \in paths : Carries(q[1], sp)}}
 Perms(n) == CASE n = 1 -> {<<1>>}
               [] n = 2 -> {<<1, 2>>, <<2, 1>>}
               [] n = 3 -> {<<1, 2, 3>>, <<1, 3, 2>>, <<2, 1, 3>>, <<2, 3, 1>>, <<3, 1, 2>>, <<3, 2, 1>>}
@@ -219,6 +292,9 @@ ValView(ck, val, g) ==
   CASE val.k = "abs" -> View0("abs", 0, "")
     [] val.k = "s"   -> View0("s", 0, val.s)
     [] val.k = "b"   -> View0("b", val.n, "")
+    [] val.k = "nil" -> View0("nil", 0, "")
+    [] val.k = "c"   -> View0("c", 0, val.s)       \* the document itself, whatever the consumer does with it
+    [] val.k = "sub" -> View0("sub", 0, val.s)     \* what a dotted path leads to inside a document
     [] val.k = "n"   -> (CASE ck = "num" -> NumView(g, val.n)
                            [] ck = "str" -> StrView(g, val.n)
                            [] ck = "key" -> KeyView(g, val.n)
@@ -226,17 +302,27 @@ ValView(ck, val, g) ==
 
 \* value and Go type a consumer reads for span i: the first of its fields
 \* that is present; a root.-prefixed field is read from the root span
-Cell(t, e, i, fld) ==
+\* a plain field is answered by the payload of the span as the path left it
+\* (Slot); a dotted path is not a field of the payload at all: it is looked up
+\* in the JSON rendering of the whole span (which does not consult the
+\* negative cache) and only for a consumer that may (nest)
+Sub(v, p) == IF v.k = "c" /\ DocHas(v.s, p) THEN [k |-> "sub", n |-> 0, s |-> v.s \o "/" \o p] ELSE Absent
+Cell(t, e, i, fld, nest) ==
   LET j == IF fld.r THEN t.root ELSE i
   IN IF j = 0 THEN [val |-> Absent, g |-> "-"]
-     ELSE [val |-> GetF(t.spans[j], fld.n),
-           g   |-> Forwarded(GoType(e.se[j].base, GetW(e.se[j], fld.n)))]
-RECURSIVE FirstPresent(_, _, _, _, _)
-FirstPresent(t, e, i, fs, k) ==
+     ELSE LET v == GetF(t.spans[j], fld.n)
+              slot == Slot(Ingestion(e.se[j].base, e.se[j].fwd), v)
+          IN IF fld.p # "" THEN [val |-> IF nest THEN Sub(v, fld.p) ELSE Absent, g |-> "-"]
+             ELSE IF ~Found(slot) THEN [val |-> Absent, g |-> "-"]
+             ELSE [val |-> v, g |-> Forwarded(GoType(e.se[j].base, GetW(e.se[j], fld.n)))]
+\* (the code tries every field plainly before it tries any dotted path; the
+\* enumerated consumers with a dotted path have that one field only)
+RECURSIVE FirstPresent(_, _, _, _, _, _)
+FirstPresent(t, e, i, fs, k, nest) ==
   IF k > Len(fs) THEN [val |-> Absent, g |-> "-"]
-  ELSE LET c == Cell(t, e, i, fs[k])
-       IN IF c.val.k # "abs" THEN c ELSE FirstPresent(t, e, i, fs, k + 1)
-Read(t, e, i, cons) == FirstPresent(t, e, i, cons.fields, 1)
+  ELSE LET c == Cell(t, e, i, fs[k], nest)
+       IN IF c.val.k # "abs" THEN c ELSE FirstPresent(t, e, i, fs, k + 1, nest)
+Read(t, e, i, cons) == FirstPresent(t, e, i, cons.fields, 1, cons.nest)
 ConsView(t, e, i, cons) == LET c == Read(t, e, i, cons) IN ValView(cons.ck, c.val, c.g)
 SpanViewC(cs, t, e, i) == [c \in 1 .. Len(cs) |-> ConsView(t, e, i, cs[c])]
 SpanView(cfg, t, e, i) == SpanViewC(Consumers(cfg), t, e, i)
@@ -335,6 +421,66 @@ Mix3Cfgs == {RulesCfg("trace", << Cond(FF, "=", "none", N(50), <<>>) >>, <<Fld("
              DynCfg(<<Fld("f"), RFld("f")>>, TRUE)}
 Mix3Vecs == {[cfg |-> c, trace |-> t, fam |-> "mix3"] : c \in Mix3Cfgs, t \in Mix3Traces}
 
+(* NON-SCALAR values.  Every kind of consumer of a field (condition         *)
+(* operators of each class, untyped and with each Datatype, Field / Fields *)
+(* / root., trace and span scope, downstream and top-level dynamic keys,   *)
+(* dotted paths with CheckNestedFields) against a field that is nil, an    *)
+(* empty / flat / nested map or array - alone, and next to a span that     *)
+(* lacks the field or has a scalar or another document in it.              *)
+NsDocs == IF Big THEN DocNames ELSE {"map", "arr", "emap"}
+NsVals == {C(d) : d \in NsDocs} \cup {Nil}
+NsConds(fs) ==
+       {Cond(fs, op, "none", NoVal, <<>>) : op \in {"exists", "not-exists"}}
+  \cup {Cond(fs, op, "none", S("x"), <<>>) : op \in StrOps}
+  \cup {Cond(fs, "matches", "none", S("[a-z]"), <<>>)}
+  \cup {Cond(fs, op, "string", S("map[]"), <<>>) : op \in {"=", "!=", "<"}}
+  \cup {Cond(fs, op, "none", S("x"), <<>>) : op \in {"=", "!="}}
+  \cup {Cond(fs, op, dt, N(10), <<>>) : op \in {"!=", ">="}, dt \in {"int", "float"}}
+  \cup {Cond(fs, op, "none", ListV, <<S("[x 1]"), S("map[]")>>) : op \in {"in", "not-in"}}
+  \cup (IF Big THEN      {Cond(fs, "=", "bool", B(TRUE), <<>>), Cond(fs, "!=", "none", N(10), <<>>)}
+                    \cup {Cond(fs, op, dt, ListV, NumList) : op \in {"in", "not-in"}, dt \in {"int", "string"}}
+        ELSE {})
+NsExists(fs) == Cond(fs, "exists", "none", NoVal, <<>>)
+NsNotExists(fs) == Cond(fs, "not-exists", "none", NoVal, <<>>)
+NsNestedConds(fs) == {NsExists(fs), NsNotExists(fs), Cond(fs, "=", "none", S("x"), <<>>), Cond(fs, "contains", "none", S("x"), <<>>)}
+NsKeyCfgs == {RulesCfg("trace", << NsExists(FF) >>, <<Fld("f")>>),
+              DynCfg(<<Fld("f")>>, FALSE), DynCfg(<<RFld("f")>>, FALSE), DynCfg(<<Fld("f"), RFld("f")>>, TRUE)}
+NsNestedCfgs ==
+       {NestedCfg("trace", <<c>>, <<>>) : c \in NsNestedConds(<<NFld("f", "a")>>)}
+  \cup {NestedCfg("span", << NsExists(<<NFld("f", "a")>>) >>, <<>>),
+        NestedCfg("trace", << NsExists(FF) >>, <<>>), NestedCfg("trace", << NsNotExists(FF) >>, <<>>)}
+  \cup (IF Big THEN      {NestedCfg("span", <<c>>, <<>>) : c \in NsNestedConds(<<NFld("f", "a")>>)}
+                    \cup {NestedCfg("trace", <<c>>, <<>>) : c \in NsNestedConds(<<NFld("f", "a.b")>>)}
+                    \cup {NestedCfg("trace", << NsExists(<<NFld("f", "c")>>) >>, <<Fld("f")>>),
+                          RulesCfg("trace", << NsExists(<<NFld("f", "a")>>) >>, <<>>)}    \* a dotted path WITHOUT CheckNestedFields
+        ELSE {})
+NsCfgs1 ==
+       {RulesCfg("trace", <<c>>, <<>>) : c \in NsConds(FF)}
+  \cup {RulesCfg("span", <<c>>, <<>>) : c \in (IF Big THEN NsConds(FF) ELSE {NsExists(FF), NsNotExists(FF), Cond(FF, "contains", "none", S("x"), <<>>)})}
+  \cup {RulesCfg("trace", <<c>>, <<>>) : c \in (IF Big THEN NsConds(<<RFld("f")>>) ELSE {NsExists(<<RFld("f")>>), NsNotExists(<<RFld("f")>>)})}
+  \cup {RulesCfg("span", << NsExists(<<Fld("g"), Fld("f")>>) >>, <<>>), RulesCfg("trace", << NsNotExists(<<Fld("g"), RFld("f")>>) >>, <<>>)}
+  \cup NsKeyCfgs \cup NsNestedCfgs
+NsTraces1 == {[spans |-> << [f |-> v, g |-> Absent] >>, root |-> r] : v \in NsVals, r \in {0, 1}}
+             \cup (IF Big THEN {[spans |-> << [f |-> S("a"), g |-> v] >>, root |-> 1] : v \in NsVals} ELSE {})
+\* two spans: the document next to a span without the field, with a scalar, with (another) document
+NsCfgs2 ==
+  {RulesCfg("trace", << NsExists(FF) >>, <<>>), RulesCfg("trace", << NsNotExists(FF) >>, <<>>),
+   RulesCfg("span", << NsNotExists(FF) >>, <<>>), RulesCfg("span", << Cond(FF, "contains", "none", S("x"), <<>>), NsExists(<<RFld("f")>>) >>, <<>>),
+   RulesCfg("trace", << Cond(FF, "does-not-contain", "none", S("x"), <<>>) >>, <<Fld("f")>>),
+   NestedCfg("trace", << NsExists(<<NFld("f", "a")>>) >>, <<>>),
+   DynCfg(<<Fld("f")>>, FALSE), DynCfg(<<Fld("f"), RFld("f")>>, TRUE)}
+  \cup (IF Big THEN {RulesCfg("trace", << NsNotExists(<<RFld("f")>>) >>, <<>>), RulesCfg("span", << Cond(FF, "=", "string", S("map[]"), <<>>) >>, <<>>),
+                     NestedCfg("span", << NsNotExists(<<NFld("f", "a")>>) >>, <<Fld("f")>>), DynCfg(<<RFld("f")>>, FALSE)}
+        ELSE {})
+NsA == IF Big THEN {C("map"), C("arr"), C("emap"), Nil} ELSE {C("map"), C("arr")}
+NsB == IF Big THEN {Absent, S("a"), C("map"), C("nest"), Nil} ELSE {Absent, S("a"), C("map")}
+NsTraces2 == {[spans |-> << [f |-> a, g |-> Absent], [f |-> b, g |-> Absent] >>, root |-> r] : a \in NsA, b \in NsB, r \in (IF Big THEN {0, 1, 2} ELSE {0, 1})}
+NsVecs == {[cfg |-> c, trace |-> t, fam |-> "ns"] : c \in NsCfgs1, t \in NsTraces1}
+          \cup {[cfg |-> c, trace |-> t, fam |-> "ns"] : c \in NsCfgs2, t \in NsTraces2}
+\* every path that carries a document for a single span; for two spans the quick bound has one path per ingestion class
+NsPaths(t) == IF Big \/ Len(t.spans) = 1 THEN AllPaths
+              ELSE {<<"jsonEvent", FALSE>>, <<"jsonBatch", FALSE>>, <<"mpBatch", FALSE>>, <<"mpEvent", TRUE>>}
+
 \* paths and msgpack widths per family: the single-span family has every
 \* width and every path; the multi-span families one width per Go type
 WireWs == MpW \cup JsonW \cup OtlpW
@@ -353,10 +499,12 @@ Encs(v) == CASE FamilyOf(v) = "wire" -> EncsOf(v.trace, AllPaths, WireWs)
              [] FamilyOf(v) = "frac" -> EncsOf(v.trace, FracPaths, FracWs)
              [] FamilyOf(v) = "mix2" -> EncsOf(v.trace, MixPaths, MixWs)
              [] FamilyOf(v) = "mix3" -> EncsOf(v.trace, Mix3Paths, Mix3Ws)
+             [] FamilyOf(v) = "ns"   -> EncsOf(v.trace, NsPaths(v.trace), {})
 Vecs == (IF "wire" \in Families THEN WireVecs ELSE {})
         \cup (IF "frac" \in Families THEN FracVecs ELSE {})
         \cup (IF "mix2" \in Families THEN Mix2Vecs ELSE {})
         \cup (IF "mix3" \in Families THEN Mix3Vecs ELSE {})
+        \cup (IF "ns" \in Families THEN NsVecs ELSE {})
 
 ---------------------------------------------------------------------------
 VecSeq == SetToSeq(Vecs)
@@ -403,6 +551,7 @@ TypeOK == /\ res \in {"pending", "agree", "differ"}
           /\ vid \in 1 .. Len(VecSeq) /\ vec = VecSeq[vid]
           /\ vec.cfg.kind \in {"rules", "dyn"}
           /\ vec.trace.root \in 0 .. Len(vec.trace.spans)
+          /\ \A i \in 1 .. Len(vec.trace.spans) : \A v \in {vec.trace.spans[i].f, vec.trace.spans[i].g} : v.k = "c" => v.s \in DocNames
           /\ Len(enc.se) \in {0, Len(vec.trace.spans)}
 
 \* every enumerated encoding is an encoding of THIS trace: a permutation of
@@ -416,6 +565,7 @@ CarriesSame ==
     /\ {enc.perm[i] : i \in 1 .. Len(enc.perm)} = 1 .. Len(vec.trace.spans)
     /\ \A i \in 1 .. Len(vec.trace.spans) :
          /\ enc.se[i].base \in Bases
+         /\ Carries(enc.se[i].base, vec.trace.spans[i])
          /\ WireOK(enc.se[i].base, vec.trace.spans[i].f, enc.se[i].wf)
          /\ WireOK(enc.se[i].base, vec.trace.spans[i].g, enc.se[i].wg)
 
@@ -424,6 +574,7 @@ CarriesSame ==
 RefIsEncoding ==
   LET r == RefEnc(vec.trace) IN
   \A i \in 1 .. Len(vec.trace.spans) :
+     /\ Carries(r.se[i].base, vec.trace.spans[i])
      /\ WireOK(r.se[i].base, vec.trace.spans[i].f, r.se[i].wf)
      /\ WireOK(r.se[i].base, vec.trace.spans[i].g, r.se[i].wg)
 
@@ -431,6 +582,21 @@ RefIsEncoding ==
 \* encoding and order.  Holds for the ideal views (Faithful = FALSE).
 EncodingIndependent ==
   Ingested => TraceView(vec.cfg, vec.trace, enc) = TraceView(vec.cfg, vec.trace, RefEnc(vec.trace))
+
+\* the payload answers "present" for a field exactly if the span carries it,
+\* whatever the path did with the event and whatever kind of value it is; the
+\* negative cache holds only fields the span does not have
+SlotSound ==
+  Ingested =>
+    \A i \in 1 .. Len(vec.trace.spans), n \in {"f", "g"} :
+       LET v == GetF(vec.trace.spans[i], n)
+           slot == Slot(Ingestion(enc.se[i].base, enc.se[i].fwd), v)
+       IN /\ Found(slot) <=> v.k # "abs"
+          /\ slot = "missing" => v.k = "abs"
+          /\ Found(slot) <=> Found(Slot(Ingestion("mpBatch", FALSE), v))     \* as for the reference
+\* a value without a number in it gives the code no known reason to differ
+NoNumber(t) == \A i \in 1 .. Len(t.spans) : t.spans[i].f.k # "n" /\ t.spans[i].g.k # "n"
+NonScalarAgree == (Ingested /\ NoNumber(vec.trace)) => (res = "agree" /\ ~Differs(vec, enc))
 
 \* a different trace view needs a consumer that sees a different value on some span
 ViewDiffLocal ==
@@ -461,7 +627,7 @@ DecoderFacts ==
 (* encoding (in the action label) and res.                                 *)
 Abs == [res |-> res]
 Hid == [vid |-> vid]
-ASSUME PrintT(ToJson([params |-> [vecs |-> VecSeq]]))
+ASSUME PrintT(ToJson([params |-> [vecs |-> VecSeq, docs |-> Docs]]))
 Dump == PrintT(ToJson([fa |-> act.name, act |-> act', fabs |-> Abs, fhid |-> Hid, tabs |-> Abs', thid |-> Hid']))
 View == <<vid, enc, res>>
 =============================================================================
